@@ -295,7 +295,9 @@ class StmtMixin:
         return final
 
     def dispatch_handlers(self, s, exc, st):
+        results = []
         for h in s.handlers:
+            may = False
             if h.type is None:
                 matches = True
             else:
@@ -304,12 +306,17 @@ class StmtMixin:
                     raise EngineError('except type expression')
                 matches = self.handler_matches(exc, tres[0].val, tres[0].st)
                 st = tres[0].st
-            if matches:
+                if matches == 'may':
+                    # an exception of unknown class (recorded by another thread): this handler may catch it (one more
+                    # path, same exception object) or not (the search goes on)
+                    matches, may = False, True
+            if matches or may:
+                s_h = st.fork() if may else st
                 if h.name:
-                    st.env[h.name] = exc
-                saved = st.env.get('$handling')
-                st.env['$handling'] = exc
-                res = self.exec_block(h.body, st)
+                    s_h.env[h.name] = exc
+                saved = s_h.env.get('$handling')
+                s_h.env['$handling'] = exc
+                res = self.exec_block(h.body, s_h)
                 for o, s2 in res:
                     if saved is None:
                         s2.env.pop('$handling', None)
@@ -317,17 +324,35 @@ class StmtMixin:
                         s2.env['$handling'] = saved
                     if h.name:
                         s2.env.pop(h.name, None)
-                return res
-        return [(raise_out(exc), st)]
+                results.extend(res)
+                if matches:
+                    return results
+        return results + [(raise_out(exc), st)]
 
     def handler_matches(self, exc, tval, st):
         if exc.cls == '$stored':
-            # exception of unknown class stored by another thread: it is an instance of
-            # BaseException; whether it matches a narrower handler is unknown
-            if isinstance(tval, ExtClassRef) and tval.name == 'BaseException':
-                return True
-            raise EngineError('handler match on exception of unknown class')
+            # exception of unknown class stored by another thread.  A-STORED-EXC: what set_exception / cancel record is
+            # an instance of Exception (caught by `except Exception`, or built from CancelledError / FatalError), so it
+            # matches BaseException / Exception handlers, never a KeyboardInterrupt / SystemExit / GeneratorExit handler,
+            # and MAY match a handler for any other class
+            return self.stored_matches(tval, st)
         return self.exc_matches(exc, tval, st)
+
+    def stored_matches(self, tval, st):
+        if isinstance(tval, tuple):
+            if len(tval) == 2 and isinstance(tval[0], str) and tval[0] == 'frozenlist':
+                tval = tval[1]
+            rs_ = [self.stored_matches(t, st) for t in tval]
+            return True if True in rs_ else ('may' if 'may' in rs_ else False)
+        if isinstance(tval, Ref):
+            rs_ = [self.stored_matches(t, st) for t in st.obj(tval).items]
+            return True if True in rs_ else ('may' if 'may' in rs_ else False)
+        name = self.exc_class_name(tval)
+        if name in ('BaseException', 'Exception'):
+            return True
+        if name in ('KeyboardInterrupt', 'SystemExit', 'GeneratorExit'):
+            return False
+        return 'may'
 
     def ex_With(self, s, st):
         if len(s.items) != 1:
